@@ -16,18 +16,36 @@ Sem.vos Sem.vok Sem.required_vos: Sem.v Ast.vos
 Model.vo Model.glob Model.v.beautified Model.required_vo: Model.v Sem.vo
 Model.vio: Model.v Sem.vio
 Model.vos Model.vok Model.required_vos: Model.v Sem.vos
-Proofs/Reach.vo Proofs/Reach.glob Proofs/Reach.v.beautified Proofs/Reach.required_vo: Proofs/Reach.v Model.vo
-Proofs/Reach.vio: Proofs/Reach.v Model.vio
-Proofs/Reach.vos Proofs/Reach.vok Proofs/Reach.required_vos: Proofs/Reach.v Model.vos
+Spec/Stack.vo Spec/Stack.glob Spec/Stack.v.beautified Spec/Stack.required_vo: Spec/Stack.v Model.vo
+Spec/Stack.vio: Spec/Stack.v Model.vio
+Spec/Stack.vos Spec/Stack.vok Spec/Stack.required_vos: Spec/Stack.v Model.vos
+Mon/C09.vo Mon/C09.glob Mon/C09.v.beautified Mon/C09.required_vo: Mon/C09.v Model.vo Spec/Stack.vo
+Mon/C09.vio: Mon/C09.v Model.vio Spec/Stack.vio
+Mon/C09.vos Mon/C09.vok Mon/C09.required_vos: Mon/C09.v Model.vos Spec/Stack.vos
+Proofs/Reach.vo Proofs/Reach.glob Proofs/Reach.v.beautified Proofs/Reach.required_vo: Proofs/Reach.v Model.vo Spec/Stack.vo
+Proofs/Reach.vio: Proofs/Reach.v Model.vio Spec/Stack.vio
+Proofs/Reach.vos Proofs/Reach.vok Proofs/Reach.required_vos: Proofs/Reach.v Model.vos Spec/Stack.vos
 Proofs/InvReg.vo Proofs/InvReg.glob Proofs/InvReg.v.beautified Proofs/InvReg.required_vo: Proofs/InvReg.v Model.vo Proofs/Reach.vo
 Proofs/InvReg.vio: Proofs/InvReg.v Model.vio Proofs/Reach.vio
 Proofs/InvReg.vos Proofs/InvReg.vok Proofs/InvReg.required_vos: Proofs/InvReg.v Model.vos Proofs/Reach.vos
-Monitors.vo Monitors.glob Monitors.v.beautified Monitors.required_vo: Monitors.v Model.vo Proofs/Reach.vo Proofs/InvReg.vo
-Monitors.vio: Monitors.v Model.vio Proofs/Reach.vio Proofs/InvReg.vio
-Monitors.vos Monitors.vok Monitors.required_vos: Monitors.v Model.vos Proofs/Reach.vos Proofs/InvReg.vos
-Proofs/MonitorsSound.vo Proofs/MonitorsSound.glob Proofs/MonitorsSound.v.beautified Proofs/MonitorsSound.required_vo: Proofs/MonitorsSound.v Model.vo Monitors.vo Proofs/Reach.vo Proofs/InvReg.vo
-Proofs/MonitorsSound.vio: Proofs/MonitorsSound.v Model.vio Monitors.vio Proofs/Reach.vio Proofs/InvReg.vio
-Proofs/MonitorsSound.vos Proofs/MonitorsSound.vok Proofs/MonitorsSound.required_vos: Proofs/MonitorsSound.v Model.vos Monitors.vos Proofs/Reach.vos Proofs/InvReg.vos
-Properties/C09.vo Properties/C09.glob Properties/C09.v.beautified Properties/C09.required_vo: Properties/C09.v Model.vo Monitors.vo Proofs/Reach.vo Proofs/InvReg.vo Proofs/MonitorsSound.vo
-Properties/C09.vio: Properties/C09.v Model.vio Monitors.vio Proofs/Reach.vio Proofs/InvReg.vio Proofs/MonitorsSound.vio
-Properties/C09.vos Properties/C09.vok Properties/C09.required_vos: Properties/C09.v Model.vos Monitors.vos Proofs/Reach.vos Proofs/InvReg.vos Proofs/MonitorsSound.vos
+Proofs/MonC09.vo Proofs/MonC09.glob Proofs/MonC09.v.beautified Proofs/MonC09.required_vo: Proofs/MonC09.v Model.vo Mon/C09.vo Proofs/Reach.vo Proofs/InvReg.vo
+Proofs/MonC09.vio: Proofs/MonC09.v Model.vio Mon/C09.vio Proofs/Reach.vio Proofs/InvReg.vio
+Proofs/MonC09.vos Proofs/MonC09.vok Proofs/MonC09.required_vos: Proofs/MonC09.v Model.vos Mon/C09.vos Proofs/Reach.vos Proofs/InvReg.vos
+Properties/C09.vo Properties/C09.glob Properties/C09.v.beautified Properties/C09.required_vo: Properties/C09.v Model.vo Mon/C09.vo Proofs/Reach.vo Proofs/InvReg.vo Proofs/MonC09.vo
+Properties/C09.vio: Properties/C09.v Model.vio Mon/C09.vio Proofs/Reach.vio Proofs/InvReg.vio Proofs/MonC09.vio
+Properties/C09.vos Properties/C09.vok Properties/C09.required_vos: Properties/C09.v Model.vos Mon/C09.vos Proofs/Reach.vos Proofs/InvReg.vos Proofs/MonC09.vos
+Spec/Bracket.vo Spec/Bracket.glob Spec/Bracket.v.beautified Spec/Bracket.required_vo: Spec/Bracket.v Model.vo
+Spec/Bracket.vio: Spec/Bracket.v Model.vio
+Spec/Bracket.vos Spec/Bracket.vok Spec/Bracket.required_vos: Spec/Bracket.v Model.vos
+Proofs/Fold.vo Proofs/Fold.glob Proofs/Fold.v.beautified Proofs/Fold.required_vo: Proofs/Fold.v Model.vo Spec/Bracket.vo
+Proofs/Fold.vio: Proofs/Fold.v Model.vio Spec/Bracket.vio
+Proofs/Fold.vos Proofs/Fold.vok Proofs/Fold.required_vos: Proofs/Fold.v Model.vos Spec/Bracket.vos
+Properties/C07.vo Properties/C07.glob Properties/C07.v.beautified Properties/C07.required_vo: Properties/C07.v Model.vo Spec/Bracket.vo Proofs/Fold.vo
+Properties/C07.vio: Properties/C07.v Model.vio Spec/Bracket.vio Proofs/Fold.vio
+Properties/C07.vos Properties/C07.vok Properties/C07.required_vos: Properties/C07.v Model.vos Spec/Bracket.vos Proofs/Fold.vos
+Mon/C07.vo Mon/C07.glob Mon/C07.v.beautified Mon/C07.required_vo: Mon/C07.v Model.vo Spec/Stack.vo Spec/Bracket.vo
+Mon/C07.vio: Mon/C07.v Model.vio Spec/Stack.vio Spec/Bracket.vio
+Mon/C07.vos Mon/C07.vok Mon/C07.required_vos: Mon/C07.v Model.vos Spec/Stack.vos Spec/Bracket.vos
+Proofs/Trace.vo Proofs/Trace.glob Proofs/Trace.v.beautified Proofs/Trace.required_vo: Proofs/Trace.v Model.vo Spec/Stack.vo
+Proofs/Trace.vio: Proofs/Trace.v Model.vio Spec/Stack.vio
+Proofs/Trace.vos Proofs/Trace.vok Proofs/Trace.required_vos: Proofs/Trace.v Model.vos Spec/Stack.vos
